@@ -254,3 +254,416 @@ theorem dropRepeats_spec {p} (hp : Down p) (c : Store) (hs : SortedLe c) :
 theorem dropRepeats_good (c : Store) (hs : SortedLe c) : SortedLt (dropRepeats c) ∧ NanFirst (dropRepeats c) := by
   rw [dropRepeats_eq]
   exact ⟨keepLast_sortedLt _ (hs.sublist (step1_sublist _ _)), (step1_nanFirst _ _).sublist (keepLast_sublist _)⟩
+
+/-! ### the stable sort commutes with row selection -/
+
+theorem split_unique {α} (P : α → Prop) : ∀ {x₁ x₂ y₁ y₂ : List α}, x₁ ++ x₂ = y₁ ++ y₂ →
+    (∀ b ∈ x₁, P b) → (∀ b ∈ x₂, ¬ P b) → (∀ b ∈ y₁, P b) → (∀ b ∈ y₂, ¬ P b) → x₁ = y₁ ∧ x₂ = y₂
+  | [], x₂, [], y₂, h, _, _, _, _ => ⟨rfl, by simpa using h⟩
+  | [], x₂, b :: y₁, y₂, h, _, hx2, hy1, _ => by
+      simp only [List.nil_append, List.cons_append] at h
+      exact absurd (hy1 b (by simp)) (hx2 b (by simp [h]))
+  | a :: x₁, x₂, [], y₂, h, hx1, _, _, hy2 => by
+      simp only [List.nil_append, List.cons_append] at h
+      exact absurd (hx1 a (by simp)) (hy2 a (by simp [← h]))
+  | a :: x₁, x₂, b :: y₁, y₂, h, hx1, hx2, hy1, hy2 => by
+      simp only [List.cons_append, List.cons.injEq] at h
+      obtain ⟨rfl, h⟩ := h
+      have := split_unique P h (fun c hc => hx1 c (by simp [hc])) hx2 (fun c hc => hy1 c (by simp [hc])) hy2
+      exact ⟨by rw [this.1], this.2⟩
+
+theorem mergeSort_filter {α} {le : α → α → Bool}
+    (trans : ∀ (a b c : α), le a b → le b c → le a c) (total : ∀ (a b : α), le a b || le b a)
+    (p : α → Bool) (l : List α) : (l.mergeSort le).filter p = (l.filter p).mergeSort le := by
+  induction l with
+  | nil => simp
+  | cons a l ih =>
+    obtain ⟨l₁, l₂, h₁, h₂, h₃⟩ := List.mergeSort_cons trans total a l
+    rw [h₁]
+    by_cases hp : p a = true
+    · simp only [List.filter_append, List.filter_cons, hp, if_true]
+      obtain ⟨m₁, m₂, g₁, g₂, g₃⟩ := List.mergeSort_cons trans total a (l.filter p)
+      rw [g₁]
+      rw [← ih, h₂, List.filter_append] at g₂
+      have s1 := List.pairwise_mergeSort trans total (a :: l)
+      rw [h₁] at s1
+      have s2 := List.pairwise_mergeSort trans total (a :: l.filter p)
+      rw [g₁] at s2
+      have k1 : ∀ b ∈ l₂.filter p, ¬ (!le a b) = true := by
+        intro b hb
+        have := (List.pairwise_append.mp s1).2.1
+        have := List.rel_of_pairwise_cons this (List.mem_filter.mp hb).1
+        simp [this]
+      have k2 : ∀ b ∈ m₂, ¬ (!le a b) = true := by
+        intro b hb
+        have := (List.pairwise_append.mp s2).2.1
+        have := List.rel_of_pairwise_cons this hb
+        simp [this]
+      have := split_unique (fun b => (!le a b) = true) g₂
+        (fun b hb => h₃ b (List.mem_filter.mp hb).1) k1 g₃ k2
+      rw [this.1, this.2]
+    · simp only [Bool.not_eq_true] at hp
+      simp only [List.filter_append, List.filter_cons, hp, Bool.false_eq_true, if_false]
+      rw [← ih, h₂, List.filter_append]
+
+theorem stampLe_trans (a b c : Row) : stampLe a b → stampLe b c → stampLe a c := by
+  simp only [stampLe, decide_eq_true_eq]; omega
+
+theorem stampLe_total (a b : Row) : (stampLe a b || stampLe b a) = true := by
+  simp only [stampLe, Bool.or_eq_true, decide_eq_true_eq]; omega
+
+theorem sortStamp_filter (p : Row → Bool) (l : Store) : (sortStamp l).filter p = sortStamp (l.filter p) :=
+  mergeSort_filter stampLe_trans stampLe_total p l
+
+theorem sortStamp_of_sorted {c : Store} (h : SortedLe c) : sortStamp c = c :=
+  List.mergeSort_of_pairwise (h.imp (by intro a b hab; simpa [stampLe] using hab))
+
+theorem sortStamp_sorted (c : Store) : SortedLe (sortStamp c) :=
+  (List.pairwise_mergeSort stampLe_trans stampLe_total c).imp (by intro a b hab; simpa [stampLe] using hab)
+
+theorem mem_sortStamp {r : Row} {c : Store} : r ∈ sortStamp c ↔ r ∈ c := List.mem_mergeSort
+
+theorem group_sortStamp (d : Int) (rows : Store) : group d (sortStamp rows) = sortStamp (group d rows) :=
+  sortStamp_filter _ _
+
+/-! ### group keys -/
+
+theorem nodup_eraseDups : ∀ (l : List Int), l.eraseDups.Nodup
+  | [] => by simp
+  | a :: as => by
+      rw [List.eraseDups_cons, List.nodup_cons]
+      refine ⟨?_, nodup_eraseDups _⟩
+      simp [List.mem_eraseDups]
+termination_by l => l.length
+decreasing_by simp only [List.length_cons]; exact Nat.lt_succ_of_le (List.length_filter_le _ _)
+
+theorem mem_dates {rows : Store} {d : Int} : d ∈ dates rows ↔ ∃ r ∈ rows, r.date = d := by
+  simp [dates, List.mem_mergeSort, List.mem_eraseDups]
+
+theorem dates_nodup (rows : Store) : (dates rows).Nodup :=
+  (List.mergeSort_perm _ _).nodup_iff.mpr (nodup_eraseDups _)
+
+theorem dates_sorted (rows : Store) : (dates rows).Pairwise (· < ·) := by
+  have h1 : (dates rows).Pairwise (fun a b => decide (a ≤ b) = true) :=
+    List.pairwise_mergeSort (by intro a b c; simp only [decide_eq_true_eq]; omega)
+      (by intro a b; simp only [Bool.or_eq_true, decide_eq_true_eq]; omega) _
+  exact (h1.and (dates_nodup rows)).imp (by intro a b ⟨h, h'⟩; simp only [decide_eq_true_eq] at h; omega)
+
+theorem sortedLt_ext {a b : List Int} (ha : a.Pairwise (· < ·)) (hb : b.Pairwise (· < ·))
+    (h : ∀ x, x ∈ a ↔ x ∈ b) : a = b := by
+  have na : a.Nodup := ha.imp (by intro x y hxy; omega)
+  have nb : b.Nodup := hb.imp (by intro x y hxy; omega)
+  exact List.Perm.eq_of_pairwise (le := (· < ·)) (by intro x y _ _ h1 h2; omega) ha hb
+    ((List.perm_ext_iff_of_nodup na nb).mpr h)
+
+theorem dates_congr {a b : Store} (h : ∀ d, (∃ r ∈ a, r.date = d) ↔ (∃ r ∈ b, r.date = d)) : dates a = dates b :=
+  sortedLt_ext (dates_sorted a) (dates_sorted b) (by intro d; rw [mem_dates, mem_dates]; exact h d)
+
+theorem group_ne_nil {rows : Store} {d : Int} : group d rows ≠ [] ↔ ∃ r ∈ rows, r.date = d := by
+  simp [group, List.filter_eq_nil_iff]
+
+theorem mem_group {rows : Store} {d : Int} {r : Row} : r ∈ group d rows ↔ r ∈ rows ∧ r.date = d := by
+  simp [group]
+
+/-! ### reads of a well-formed store -/
+
+/-- the as-of filter of `bi_read` as a row predicate; `none` reads everything -/
+def vis (asof : Option Int) (r : Row) : Bool :=
+  match asof with
+  | some T => decide (r.stamp ≤ T)
+  | Option.none => true
+
+theorem vis_down (asof : Option Int) : Down (vis asof) := by
+  intro r r' h
+  cases asof with
+  | none => simp [vis]
+  | some T => simp only [vis, decide_eq_true_eq]; omega
+
+theorem filter_vis_none (rows : Store) : rows.filter (vis Option.none) = rows := by
+  have : vis Option.none = fun _ => true := rfl
+  rw [this]; simp
+
+theorem biRead_eq (st : Store) (asof : Option Int) (w : Int) :
+    biRead st asof w = (dates (sortStamp (st.filter (vis asof)))).map fun d =>
+      (d, nthVal w (group d (sortStamp (st.filter (vis asof))))) := by
+  cases asof with
+  | none => simp only [biRead, filter_vis_none]
+  | some T => rfl
+
+theorem group_filter (d : Int) (q : Row → Bool) (rows : Store) : group d (rows.filter q) = (group d rows).filter q := by
+  simp only [group, List.filter_filter]
+  congr 1; funext r; exact Bool.and_comm _ _
+
+/-- the fold of the visible publications per date: what every read is compared with -/
+def specRows (rows : Store) (asof : Option Int) : TS :=
+  (dates (rows.filter (vis asof))).map fun d => (d, lastVal ((group d rows).filter (vis asof)))
+
+theorem specRead_eq (log : List Version) (asof : Option Int) : specRead log asof = specRows (logRows log) asof := by
+  cases asof with
+  | none => simp only [specRead, specRows, filter_vis_none, group_filter]
+  | some T => simp only [specRead, specRows, group_filter]; rfl
+
+theorem foldl_or_none (X : Store) (h : ∀ r ∈ X, r.val = Option.none) (a : Option Int) :
+    X.foldl (fun acc r => r.val.or acc) a = a := by
+  induction X generalizing a with
+  | nil => rfl
+  | cons x X ih =>
+    simp only [List.foldl_cons]
+    rw [h x (by simp), Option.none_or]
+    exact ih (fun r hr => h r (by simp [hr])) a
+
+theorem accVal_some (a : Option Int) (X : Store) :
+    accVal (some a) X = some (X.foldl (fun acc r => r.val.or acc) a) := by
+  induction X generalizing a with
+  | nil => rfl
+  | cons x X ih => simp only [accVal_cons, Option.getD_some, List.foldl_cons]; exact ih _
+
+theorem lastVal_eq_getD (X : Store) : lastVal X = (accVal Option.none X).getD Option.none := by
+  cases X with
+  | nil => rfl
+  | cons x X => simp [accVal_cons, accVal_some, lastVal]
+
+theorem accVal_eq_none {X : Store} : accVal Option.none X = Option.none ↔ X = [] := by
+  cases X with
+  | nil => simp [accVal]
+  | cons x X => simp [accVal_cons, accVal_some]
+
+theorem lastVal_snoc (X : Store) (r : Row) : lastVal (X ++ [r]) = r.val.or (lastVal X) := by
+  simp [lastVal, List.foldl_append]
+
+theorem nth_neg_one (v : Store) : nth (-1) v = v.getLast? := by
+  have h : ¬ (0 : Int) ≤ -1 := by decide
+  unfold nth
+  rw [if_neg h, List.getLast?_eq_getElem?]
+  congr 1
+  omega
+
+theorem nth_zero (v : Store) : nth 0 v = v.head? := by
+  unfold nth
+  cases v <;> simp
+
+/-- on a column whose NaN rows come first, the last row carries the latest non-NaN value -/
+theorem getLast_nanFirst (v : Store) (h : NanFirst v) : v.getLast?.bind (·.val) = lastVal v := by
+  cases hl : v.getLast? with
+  | none => rw [List.getLast?_eq_none_iff.mp hl]; rfl
+  | some r =>
+    obtain ⟨ys, rfl⟩ := List.getLast?_eq_some_iff.mp hl
+    rw [lastVal_snoc]
+    cases hv : r.val with
+    | some x => simp [hv]
+    | none =>
+      have hall : ∀ y ∈ ys, y.val = Option.none := by
+        intro y hy
+        have := (List.pairwise_append.mp h).2.2 y hy r (by simp)
+        exact this hv
+      simp [hv, lastVal, foldl_or_none ys hall]
+
+/-- every date's rows strictly increasing in stamp and NaN rows first: the shape `bi_merge` leaves -/
+def Good (st : Store) : Prop := ∀ d, SortedLt (group d st) ∧ NanFirst (group d st)
+
+/-- two row lists tell the same story: per date, every as-of cut folds to the same value -/
+def SpecEq (a b : Store) : Prop :=
+  ∀ d p, Down p → accVal Option.none ((group d a).filter p) = accVal Option.none ((group d b).filter p)
+
+theorem SortedLt.le {c : Store} (h : SortedLt c) : SortedLe c := h.imp (by intro a b hab; omega)
+
+theorem dates_sortStamp (rows : Store) : dates (sortStamp rows) = dates rows :=
+  dates_congr (by intro d; simp [mem_sortStamp])
+
+/-- L1: an as-of read (`what = -1`) of a well-formed store is the fold of its own visible rows -/
+theorem biRead_last (st : Store) (hg : Good st) (asof : Option Int) : biRead st asof (-1) = specRows st asof := by
+  rw [biRead_eq]
+  unfold specRows
+  rw [dates_sortStamp]
+  apply List.map_congr_left
+  intro d _
+  have hs : SortedLe ((group d st).filter (vis asof)) := ((hg d).1.le).sublist List.filter_sublist
+  have hn : NanFirst ((group d st).filter (vis asof)) := ((hg d).2).sublist List.filter_sublist
+  rw [group_sortStamp, group_filter, sortStamp_of_sorted hs]
+  simp only [nthVal, nth_neg_one]
+  rw [getLast_nanFirst _ hn]
+
+theorem specRows_congr {a b : Store} (h : SpecEq a b) (asof : Option Int) : specRows a asof = specRows b asof := by
+  unfold specRows
+  have hd : dates (a.filter (vis asof)) = dates (b.filter (vis asof)) := by
+    apply dates_congr
+    intro d
+    rw [← group_ne_nil, ← group_ne_nil, group_filter, group_filter, Ne, Ne, ← accVal_eq_none, ← accVal_eq_none,
+      h d _ (vis_down asof)]
+  rw [hd]
+  apply List.map_congr_left
+  intro d _
+  rw [lastVal_eq_getD, lastVal_eq_getD, h d _ (vis_down asof)]
+
+theorem SpecEq.refl (a : Store) : SpecEq a a := fun _ _ _ => rfl
+theorem SpecEq.symm {a b : Store} (h : SpecEq a b) : SpecEq b a := fun d p hp => (h d p hp).symm
+theorem SpecEq.trans {a b c : Store} (h : SpecEq a b) (h' : SpecEq b c) : SpecEq a c :=
+  fun d p hp => (h d p hp).trans (h' d p hp)
+
+/-! ### one merge -/
+
+theorem flatMap_single {α β} [DecidableEq α] (f : α → List β) (d : α) :
+    ∀ (l : List α), l.Nodup → (∀ x ∈ l, x ≠ d → f x = []) → l.flatMap f = if d ∈ l then f d else []
+  | [], _, _ => by simp
+  | x :: l, hn, h => by
+    rw [List.nodup_cons] at hn
+    rw [List.flatMap_cons, flatMap_single f d l hn.2 (fun y hy => h y (by simp [hy]))]
+    by_cases hx : x = d
+    · subst hx; simp [hn.1]
+    · rw [h x (by simp) hx]
+      have : (d = x) = False := by simp; exact fun h => hx h.symm
+      simp [this]
+
+/-- D1: per date, the merged frame is `_drop_repeats` of that date's rows in stable stamp order -/
+theorem group_mergeFrames (d : Int) (o n : Store) :
+    group d (mergeFrames [o, n]) = dropRepeats (sortStamp (group d (o ++ n))) := by
+  unfold mergeFrames
+  simp only [List.flatten_cons, List.flatten_nil, List.append_nil]
+  rw [group, List.filter_flatMap]
+  have hne : ∀ x ∈ dates (sortStamp (o ++ n)), x ≠ d →
+      List.filter (fun r => r.date == d) (dropRepeats (group x (sortStamp (o ++ n)))) = [] := by
+    intro x _ hx
+    rw [List.filter_eq_nil_iff]
+    intro r hr
+    have := (dropRepeats_sublist _).subset hr
+    have := (mem_group.mp this).2
+    simp; omega
+  rw [flatMap_single _ d _ (dates_nodup _) hne]
+  have hself : List.filter (fun r => r.date == d) (dropRepeats (group d (sortStamp (o ++ n))))
+      = dropRepeats (group d (sortStamp (o ++ n))) := by
+    rw [List.filter_eq_self]
+    intro r hr
+    have := (dropRepeats_sublist _).subset hr
+    simpa using (mem_group.mp this).2
+  rw [hself, group_sortStamp]
+  split
+  · rfl
+  · rename_i hnot
+    have : group d (o ++ n) = [] := by
+      by_cases hc : group d (o ++ n) = []
+      · exact hc
+      · exfalso
+        rw [← Ne, group_ne_nil] at hc
+        apply hnot
+        rw [mem_dates]
+        obtain ⟨r, hr, hd⟩ := hc
+        exact ⟨r, mem_sortStamp.mpr hr, hd⟩
+    rw [this]
+    simp [sortStamp, dropRepeats_eq, step1, keepLast]
+
+theorem mergeFrames_good (o n : Store) : Good (mergeFrames [o, n]) := by
+  intro d
+  rw [group_mergeFrames]
+  exact dropRepeats_good _ (sortStamp_sorted _)
+
+theorem mergeFrames_specEq (o n : Store) : SpecEq (mergeFrames [o, n]) (sortStamp (o ++ n)) := by
+  intro d p hp
+  rw [group_mergeFrames, group_sortStamp]
+  exact dropRepeats_spec hp _ (sortStamp_sorted _)
+
+theorem mergeFrames_subset (o n : Store) {r : Row} (h : r ∈ mergeFrames [o, n]) : r ∈ o ++ n := by
+  have h1 : r ∈ group r.date (mergeFrames [o, n]) := mem_group.mpr ⟨h, rfl⟩
+  rw [group_mergeFrames] at h1
+  have := (dropRepeats_sublist _).subset h1
+  exact (mem_group.mp (mem_sortStamp.mp this)).1
+
+theorem specEq_sortStamp_of_colSorted (X : Store) (h : ∀ d, SortedLe (group d X)) : SpecEq (sortStamp X) X := by
+  intro d p _
+  rw [group_sortStamp, sortStamp_of_sorted (h d)]
+
+/-! ### the invariant of a publication history -/
+
+/-- the store tells the same story as the full log, has the shape `bi_merge` leaves, and holds published rows only -/
+def Inv (st rows : Store) : Prop := Good st ∧ SpecEq st rows ∧ ∀ r ∈ st, r ∈ rows
+
+theorem group_append (d : Int) (a b : Store) : group d (a ++ b) = group d a ++ group d b := by
+  simp [group]
+
+theorem specEq_append {a b : Store} (h : SpecEq a b) (n : Store) : SpecEq (a ++ n) (b ++ n) := by
+  intro d p hp
+  simp only [group_append, List.filter_append, accVal_append, h d p hp]
+
+/-- one merge of rows stamped no earlier than anything published so far keeps the invariant -/
+theorem inv_merge {st rows n : Store} (h : Inv st rows) (hs : SortedLe (rows ++ n)) :
+    Inv (mergeFrames [st, n]) (rows ++ n) := by
+  obtain ⟨hg, he, hm⟩ := h
+  obtain ⟨_, hn, hcross⟩ := List.pairwise_append.mp hs
+  refine ⟨mergeFrames_good _ _, ?_, ?_⟩
+  · refine (mergeFrames_specEq st n).trans ((specEq_sortStamp_of_colSorted _ ?_).trans (specEq_append he n))
+    intro d
+    rw [group_append]
+    refine List.pairwise_append.mpr ⟨(hg d).1.le, hn.sublist List.filter_sublist, ?_⟩
+    intro a ha b hb
+    exact hcross a (hm a (mem_group.mp ha).1) b (mem_group.mp hb).1
+  · intro r hr
+    rcases List.mem_append.mp (mergeFrames_subset _ _ hr) with h1 | h1
+    · exact List.mem_append_left _ (hm r h1)
+    · exact List.mem_append_right _ h1
+
+theorem logRows_append (a b : List Version) : logRows (a ++ b) = logRows a ++ logRows b := by
+  simp [logRows]
+
+theorem logRows_single (v : Version) : logRows [v] = Bi v.ts v.stamp := by
+  simp [logRows]
+
+def mergeStep (st : Option Store) (v : Version) : Option Store := some (biMerge st (Bi v.ts v.stamp))
+
+theorem history_eq (log : List Version) : history log = log.foldl mergeStep Option.none := rfl
+
+theorem inv_foldl (rest : List Version) : ∀ (st : Store) (log0 : List Version), Inv st (logRows log0) →
+    SortedLe (logRows (log0 ++ rest)) →
+    ∃ st', rest.foldl mergeStep (some st) = some st' ∧ Inv st' (logRows (log0 ++ rest)) := by
+  induction rest with
+  | nil => intro st log0 h _; exact ⟨st, rfl, by simpa using h⟩
+  | cons v rest ih =>
+    intro st log0 h hs
+    have e : log0 ++ v :: rest = (log0 ++ [v]) ++ rest := by simp
+    rw [e] at hs ⊢
+    have hs1 : SortedLe (logRows (log0 ++ [v])) := by
+      rw [logRows_append] at hs; exact (List.pairwise_append.mp hs).1
+    have h1 : Inv (mergeFrames [st, Bi v.ts v.stamp]) (logRows (log0 ++ [v])) := by
+      rw [logRows_append, logRows_single] at hs1 ⊢
+      exact inv_merge h hs1
+    exact ih _ _ h1 hs
+
+/-- a stamp-ordered log is stamp-ordered as a list of rows -/
+theorem logRows_sorted (log : List Version) (hs : log.Pairwise (fun a b => a.stamp ≤ b.stamp)) :
+    SortedLe (logRows log) := by
+  unfold logRows SortedLe
+  rw [List.pairwise_flatMap]
+  refine ⟨?_, hs.imp ?_⟩
+  · intro v _
+    simp only [Bi, List.pairwise_map]
+    exact List.pairwise_of_forall (by intros; simp)
+  · intro a b hab x hx y hy
+    simp only [Bi, List.mem_map] at hx hy
+    obtain ⟨_, _, rfl⟩ := hx
+    obtain ⟨_, _, rfl⟩ := hy
+    exact hab
+
+theorem good_Bi (ts : TS) (s : Int) (h : ts.Sorted) : Good (Bi ts s) := by
+  intro d
+  have hd : (group d (Bi ts s)).Pairwise (fun a b => a.date < b.date) := by
+    refine List.Pairwise.sublist List.filter_sublist ?_
+    simp only [Bi, List.pairwise_map]
+    simpa [TS.Sorted, TS.index, List.pairwise_map] using h
+  have hfalse : ∀ {a b : Row}, a ∈ group d (Bi ts s) → b ∈ group d (Bi ts s) → a.date < b.date → False := by
+    intro a b ha hb hab
+    have := (mem_group.mp ha).2
+    have := (mem_group.mp hb).2
+    omega
+  exact ⟨hd.imp_of_mem (fun ha hb hab => (hfalse ha hb hab).elim),
+         hd.imp_of_mem (fun ha hb hab => (hfalse ha hb hab).elim)⟩
+
+/-- the invariant holds after any stamp-ordered history -/
+theorem history_inv (log : List Version) (hne : log ≠ []) (hwf : ∀ v ∈ log, v.ts.Sorted)
+    (hs : log.Pairwise (fun a b => a.stamp ≤ b.stamp)) :
+    ∃ st, history log = some st ∧ Inv st (logRows log) := by
+  cases log with
+  | nil => exact absurd rfl hne
+  | cons v rest =>
+    have h0 : Inv (Bi v.ts v.stamp) (logRows [v]) := by
+      rw [logRows_single]
+      exact ⟨good_Bi _ _ (hwf v (by simp)), SpecEq.refl _, fun _ h => h⟩
+    have := inv_foldl rest (Bi v.ts v.stamp) [v] h0 (by simpa using logRows_sorted _ hs)
+    simpa [history_eq, List.foldl_cons, mergeStep, biMerge] using this
